@@ -262,7 +262,9 @@ static void do_op(void)
             vh_op("slot %d = %s malloc(%zu) file=%s level=%d", i, viaS, n, vh_qs(file), level);
             p = via < 0 ? spifmem_malloc(file, line, n) : SITES[via].m(n, &line);
         } else if (which == 1) {
-            size_t cnt = (n + 2) / 3; n = cnt * 3;
+            size_t cnt = (n + 2) / 3;
+            if (vh_coin(5)) { cnt = 0; vh_count("op_calloc_zero_elements", 1); }     /* a zero-element block is still a live block with a record */
+            n = cnt * 3;
             opkey = "calloc";
             vh_op("slot %d = %s calloc(%zu x 3) file=%s level=%d", i, viaS, cnt, vh_qs(file), level);
             p = via < 0 ? spifmem_calloc(file, line, cnt, 3) : SITES[via].c(cnt, &line);
